@@ -463,6 +463,7 @@ theorem id_second {L : Nat} {e : X} (hwf : WFX L e) : ∀ x r, e.flat = ("ID", x
   | szof L e _ _ _ _ => intro x r h; simp [X.flat] at h
   | cast L tn e _ _ _ _ => intro x r h; simp [X.flat] at h
   | szofT L tn _ _ => intro x r h; simp [X.flat] at h
+  | alignT L tn _ _ => intro x r h; simp [X.flat] at h
   | post L k v e _ hk hw ih =>
     exact id_second_app e.flat _ (k, v) [] rfl (mem_not_colon hk (by decide)) ih (flat_ne_nil hw)
   | index L e i _ hw _ ih _ =>
